@@ -13,10 +13,10 @@ use cfb::Version;
 
 /// Characters whose simple case mapping has been stable since Unicode 3/4/5, by class.
 const ASCII: &[char] = &['a', 'A', 'b', 'B', 'z', 'Z', 'k', 'K', 's', 'S', 'i', 'I', '0', '9', ' ', '.', '_', '-', '~', '#', '(', '\u{1}', '\u{5}', '\u{7f}', '\0'];
-const LATIN: &[char] = &['\u{e9}', '\u{c9}', '\u{ff}', '\u{178}', '\u{b5}', '\u{39c}', '\u{df}', '\u{e0}', '\u{c0}', '\u{f1}', '\u{d1}', '\u{131}', '\u{17f}', '\u{1c4}', '\u{1c5}', '\u{1c6}', '\u{1c7}', '\u{1c8}', '\u{1f1}', '\u{1f2}'];
-const GREEK_CYR: &[char] = &['\u{3c3}', '\u{3c2}', '\u{3a3}', '\u{3b1}', '\u{391}', '\u{434}', '\u{414}', '\u{44f}', '\u{42f}', '\u{1fb3}', '\u{1fbc}', '\u{3ac}', '\u{386}', '\u{1fb6}', '\u{1f80}', '\u{1f88}', '\u{1ff3}', '\u{1ffc}', '\u{1fc3}'];
+const LATIN: &[char] = &['\u{e9}', '\u{c9}', '\u{ff}', '\u{178}', '\u{b5}', '\u{39c}', '\u{df}', '\u{e0}', '\u{c0}', '\u{f1}', '\u{d1}', '\u{131}', '\u{17f}', '\u{1c4}', '\u{1c5}', '\u{1c6}', '\u{1c7}', '\u{1c8}', '\u{1f1}', '\u{1f2}', '\u{212a}', '\u{212b}', '\u{e5}', '\u{c5}', '\u{1e9e}'];
+const GREEK_CYR: &[char] = &['\u{3c3}', '\u{3c2}', '\u{3a3}', '\u{3b1}', '\u{391}', '\u{434}', '\u{414}', '\u{44f}', '\u{42f}', '\u{1fb3}', '\u{1fbc}', '\u{3ac}', '\u{386}', '\u{1fb6}', '\u{1f80}', '\u{1f88}', '\u{1ff3}', '\u{1ffc}', '\u{1fc3}', '\u{2126}', '\u{3c9}', '\u{3a9}', '\u{3f4}', '\u{3b8}', '\u{398}'];
 const CASELESS_BMP: &[char] = &['\u{65e5}', '\u{672c}', '\u{5d0}', '\u{e000}', '\u{fffd}', '\u{ff41}', '\u{ff21}', '\u{2603}', '\u{d7ff}', '\u{f900}'];
-const SUPPLEMENTARY: &[char] = &['\u{1F600}', '\u{1F389}', '\u{20000}', '\u{10428}', '\u{1D11E}'];
+const SUPPLEMENTARY: &[char] = &['\u{1F600}', '\u{1F389}', '\u{20000}', '\u{10428}', '\u{1D11E}', '\u{1F680}', '\u{1F601}', '\u{20001}'];
 const FORBIDDEN: &[char] = &['\\', ':', '!'];
 
 fn char_class(c: char) -> &'static str {
